@@ -173,6 +173,9 @@ def run_instances(ctx, stream, insts):
 
 
 def run(ctx: Ctx):
+    from ..rules_common import interpreter_modes
+
+    interpreter_modes(ctx, "rules")
     run_witnesses(ctx)
     quick = ctx.quick()
     n = ctx.size(6000, 100000)
